@@ -36,6 +36,7 @@ def magic_bytes(w):
 
 def run(chk):
     w = C.world_for(chk)
+    chk.rule("R07.7", "buffering adaptors around the caller's sink are flushed with the error propagated")
     for rid, txt in (("R07.1", "magic written first / compared whole before decoding"), ("R07.2", "one bincode configuration"),
                      ("R07.3", "derived Encode/Decode symmetry"), ("R07.4", "error discipline in model IO"),
                      ("R07.5", "guarded indexing of the caller's slice"), ("R07.6", "remainder slice form")):
@@ -55,6 +56,15 @@ def run(chk):
             chk.undecided("R07.1", "%s:ok-path" % fnm, "no Ok path", site=C.site(b))
         for o in oks:
             ev = [e for e in o.trace if e[0] == "call"]
+            # R07.7: a buffering adaptor around the caller's sink must be flushed (error propagated) after the last write
+            bufs = [k for k, e in enumerate(ev) if re.search(r"(BufWriter|LineWriter)(<[^>]*>)?::(new|with_capacity)$", e[2] or "")]
+            if bufs:
+                fl = [k for k, e in enumerate(ev) if (e[2] or "").split("::")[-1] in ("flush", "into_inner") and k > bufs[-1]]
+                wr = [k for k, e in enumerate(ev) if (e[2] or "").split("::")[-1] in ("write_all", sink_call, "write")]
+                okf = bool(fl) and (not wr or fl[-1] > wr[-1])
+                chk.ob("R07.7", "%s:buffered-sink-flushed" % fnm, okf,
+                       "Model::%s wraps the caller's writer in a buffering adaptor but returns Ok without flushing it: bytes still in the buffer are written when the adaptor is dropped, where write errors are discarded, "
+                       "so a writer that fails part-way yields Ok and a truncated file" % fnm, site=C.site(b, ev[bufs[-1]][1]))
             enc = [k for k, e in enumerate(ev) if (e[2] or "").endswith(sink_call)]
             if fnm == "write":
                 wa = [k for k, e in enumerate(ev) if (e[2] or "").endswith("write_all") and len(e[3]) > 1
